@@ -8,22 +8,39 @@ open Usage Spec.C19
 
 namespace C19
 
-theorem mem_identHits (S : List String) (i p : String) : p ∈ identHits S i ↔ p ∈ S ∧ p = i := by
+theorem mem_identHits (S : List String) (i p : String) : p ∈ identHits S i ↔ p ∈ S ∧ unraw p = unraw i := by
   simp [identHits, List.mem_filter]
 
 theorem mem_ltHits (L : List String) (l p : String) : p ∈ ltHits L l ↔ p ∈ L ∧ p = l := by
   simp [ltHits, List.mem_filter]
 
+/-- some name in `l` is the same identifier as `p` (raw and plain spellings identified) -/
+def Hit (p : String) (l : List String) : Prop := ∃ i, i ∈ l ∧ unraw p = unraw i
+
+theorem hit_nil (p : String) : Hit p [] ↔ False := by simp [Hit]
+
+theorem hit_singleton (p i : String) : Hit p [i] ↔ unraw p = unraw i := by simp [Hit]
+
+theorem hit_append (p : String) (a b : List String) : Hit p (a ++ b) ↔ Hit p a ∨ Hit p b := by
+  simp only [Hit, List.mem_append]
+  constructor
+  · rintro ⟨i, h | h, e⟩
+    · exact .inl ⟨i, h, e⟩
+    · exact .inr ⟨i, h, e⟩
+  · rintro (⟨i, h, e⟩ | ⟨i, h, e⟩)
+    · exact ⟨i, .inl h, e⟩
+    · exact ⟨i, .inr h, e⟩
+
 /-! ### type parameters -/
 
 mutual
 theorem ty_exact (d : Bool) (S : List String) (p : String) : (t : SType) →
-    (p ∈ tyParams d S t ↔ p ∈ S ∧ p ∈ occ d t)
+    (p ∈ tyParams d S t ↔ p ∈ S ∧ Hit p (occ d t))
   | .path q pa => by
-      simp only [tyParams, occ, List.mem_append]
+      simp only [tyParams, occ, List.mem_append, hit_append]
       rw [path_exact d S p pa]
       cases d
-      · simp
+      · simp [hit_nil]
       · simp only [if_true]; rw [opt_exact true S p q]; constructor
         · rintro (⟨h1, h2⟩ | ⟨h1, h2⟩)
           · exact ⟨h1, Or.inl h2⟩
@@ -37,7 +54,7 @@ theorem ty_exact (d : Bool) (S : List String) (p : String) : (t : SType) →
   | .array e => by simp only [tyParams, occ]; exact ty_exact d S p e
   | .tuple es => by simp only [tyParams, occ]; exact tys_exact d S p es
   | .bareFn ins out => by
-      simp only [tyParams, occ, List.mem_append]
+      simp only [tyParams, occ, List.mem_append, hit_append]
       rw [tys_exact d S p ins, opt_exact d S p out]
       constructor
       · rintro (⟨h1, h2⟩ | ⟨h1, h2⟩)
@@ -50,16 +67,16 @@ theorem ty_exact (d : Bool) (S : List String) (p : String) : (t : SType) →
   | .group e => by simp only [tyParams, occ]; exact ty_exact d S p e
   | .traitObject bs => by simp only [tyParams, occ]; exact bounds_exact d S p bs
   | .implTrait bs => by simp only [tyParams, occ]; exact bounds_exact d S p bs
-  | .opaque => by simp [tyParams, occ]
+  | .opaque => by simp [tyParams, occ, hit_nil]
 theorem opt_exact (d : Bool) (S : List String) (p : String) : (t : Option SType) →
-    (p ∈ optTyParams d S t ↔ p ∈ S ∧ p ∈ occOpt d t)
-  | none => by simp [optTyParams, occOpt]
+    (p ∈ optTyParams d S t ↔ p ∈ S ∧ Hit p (occOpt d t))
+  | none => by simp [optTyParams, occOpt, hit_nil]
   | some t => by simp only [optTyParams, occOpt]; exact ty_exact d S p t
 theorem tys_exact (d : Bool) (S : List String) (p : String) : (ts : List SType) →
-    (p ∈ tysParams d S ts ↔ p ∈ S ∧ p ∈ occList d ts)
-  | [] => by simp [tysParams, occList]
+    (p ∈ tysParams d S ts ↔ p ∈ S ∧ Hit p (occList d ts))
+  | [] => by simp [tysParams, occList, hit_nil]
   | t :: ts => by
-      simp only [tysParams, occList, List.mem_append]
+      simp only [tysParams, occList, List.mem_append, hit_append]
       rw [ty_exact d S p t, tys_exact d S p ts]
       constructor
       · rintro (⟨h1, h2⟩ | ⟨h1, h2⟩)
@@ -69,16 +86,16 @@ theorem tys_exact (d : Bool) (S : List String) (p : String) : (ts : List SType) 
         · exact Or.inl ⟨h1, h2⟩
         · exact Or.inr ⟨h1, h2⟩
 theorem path_exact (d : Bool) (S : List String) (p : String) : (pa : SPath) →
-    (p ∈ pathParams d S pa ↔ p ∈ S ∧ p ∈ occPath d pa)
+    (p ∈ pathParams d S pa ↔ p ∈ S ∧ Hit p (occPath d pa))
   | .mk global segs => by
-      simp only [pathParams, occPath, List.mem_append]
+      simp only [pathParams, occPath, List.mem_append, hit_append]
       rw [segs_exact d S p segs]
       cases segs with
-      | nil => simp
+      | nil => simp [hit_nil]
       | cons s rest =>
           obtain ⟨ident, args⟩ := s
           cases global
-          · simp only [Bool.false_eq_true, if_false, mem_identHits, List.mem_singleton]
+          · simp only [Bool.false_eq_true, if_false, mem_identHits, hit_singleton]
             constructor
             · rintro (⟨h1, h2⟩ | ⟨h1, h2⟩)
               · exact ⟨h1, Or.inl h2⟩
@@ -86,12 +103,12 @@ theorem path_exact (d : Bool) (S : List String) (p : String) : (pa : SPath) →
             · rintro ⟨h1, h2 | h2⟩
               · exact Or.inl ⟨h1, h2⟩
               · exact Or.inr ⟨h1, h2⟩
-          · simp
+          · simp [hit_nil]
 theorem segs_exact (d : Bool) (S : List String) (p : String) : (ss : List SSeg) →
-    (p ∈ segsParams d S ss ↔ p ∈ S ∧ p ∈ occSegs d ss)
-  | [] => by simp [segsParams, occSegs]
+    (p ∈ segsParams d S ss ↔ p ∈ S ∧ Hit p (occSegs d ss))
+  | [] => by simp [segsParams, occSegs, hit_nil]
   | .mk _ args :: rest => by
-      simp only [segsParams, occSegs, List.mem_append]
+      simp only [segsParams, occSegs, List.mem_append, hit_append]
       rw [args_exact d S p args, segs_exact d S p rest]
       constructor
       · rintro (⟨h1, h2⟩ | ⟨h1, h2⟩)
@@ -101,11 +118,11 @@ theorem segs_exact (d : Bool) (S : List String) (p : String) : (ss : List SSeg) 
         · exact Or.inl ⟨h1, h2⟩
         · exact Or.inr ⟨h1, h2⟩
 theorem args_exact (d : Bool) (S : List String) (p : String) : (a : SArgs) →
-    (p ∈ argsParams d S a ↔ p ∈ S ∧ p ∈ occArgs d a)
-  | .none => by simp [argsParams, occArgs]
+    (p ∈ argsParams d S a ↔ p ∈ S ∧ Hit p (occArgs d a))
+  | .none => by simp [argsParams, occArgs, hit_nil]
   | .angle as => by simp only [argsParams, occArgs]; exact gargs_exact d S p as
   | .paren ins out => by
-      simp only [argsParams, occArgs, List.mem_append]
+      simp only [argsParams, occArgs, List.mem_append, hit_append]
       rw [tys_exact d S p ins, opt_exact d S p out]
       constructor
       · rintro (⟨h1, h2⟩ | ⟨h1, h2⟩)
@@ -115,10 +132,10 @@ theorem args_exact (d : Bool) (S : List String) (p : String) : (a : SArgs) →
         · exact Or.inl ⟨h1, h2⟩
         · exact Or.inr ⟨h1, h2⟩
 theorem gargs_exact (d : Bool) (S : List String) (p : String) : (as : List SGArg) →
-    (p ∈ gargsParams d S as ↔ p ∈ S ∧ p ∈ occGArgs d as)
-  | [] => by simp [gargsParams, occGArgs]
+    (p ∈ gargsParams d S as ↔ p ∈ S ∧ Hit p (occGArgs d as))
+  | [] => by simp [gargsParams, occGArgs, hit_nil]
   | a :: as => by
-      simp only [gargsParams, occGArgs, List.mem_append]
+      simp only [gargsParams, occGArgs, List.mem_append, hit_append]
       rw [garg_exact d S p a, gargs_exact d S p as]
       constructor
       · rintro (⟨h1, h2⟩ | ⟨h1, h2⟩)
@@ -128,17 +145,17 @@ theorem gargs_exact (d : Bool) (S : List String) (p : String) : (as : List SGArg
         · exact Or.inl ⟨h1, h2⟩
         · exact Or.inr ⟨h1, h2⟩
 theorem garg_exact (d : Bool) (S : List String) (p : String) : (a : SGArg) →
-    (p ∈ gargParams d S a ↔ p ∈ S ∧ p ∈ occGArg d a)
+    (p ∈ gargParams d S a ↔ p ∈ S ∧ Hit p (occGArg d a))
   | .ty t => by simp only [gargParams, occGArg]; exact ty_exact d S p t
   | .assocTy t => by simp only [gargParams, occGArg]; exact ty_exact d S p t
   | .constraint bs => by simp only [gargParams, occGArg]; exact bounds_exact d S p bs
-  | .lifetime _ => by simp [gargParams, occGArg]
-  | .other => by simp [gargParams, occGArg]
+  | .lifetime _ => by simp [gargParams, occGArg, hit_nil]
+  | .other => by simp [gargParams, occGArg, hit_nil]
 theorem bounds_exact (d : Bool) (S : List String) (p : String) : (bs : List SBound) →
-    (p ∈ boundsParams d S bs ↔ p ∈ S ∧ p ∈ occBounds d bs)
-  | [] => by simp [boundsParams, occBounds]
+    (p ∈ boundsParams d S bs ↔ p ∈ S ∧ Hit p (occBounds d bs))
+  | [] => by simp [boundsParams, occBounds, hit_nil]
   | b :: bs => by
-      simp only [boundsParams, occBounds, List.mem_append]
+      simp only [boundsParams, occBounds, List.mem_append, hit_append]
       rw [bound_exact d S p b, bounds_exact d S p bs]
       constructor
       · rintro (⟨h1, h2⟩ | ⟨h1, h2⟩)
@@ -148,15 +165,21 @@ theorem bounds_exact (d : Bool) (S : List String) (p : String) : (bs : List SBou
         · exact Or.inl ⟨h1, h2⟩
         · exact Or.inr ⟨h1, h2⟩
 theorem bound_exact (d : Bool) (S : List String) (p : String) : (b : SBound) →
-    (p ∈ boundParams d S b ↔ p ∈ S ∧ p ∈ occBound d b)
+    (p ∈ boundParams d S b ↔ p ∈ S ∧ Hit p (occBound d b))
   | .trait _ pa => by simp only [boundParams, occBound]; exact path_exact d S p pa
-  | .lifetime _ => by simp [boundParams, occBound]
+  | .lifetime _ => by simp [boundParams, occBound, hit_nil]
 end
 
 /-- **exactness** (the headline): the analysis returns exactly those members of the queried set
-    that occur where they denote the parameter -/
+    that occur where they denote the parameter (`r#T` and `T` denote the same parameter) -/
 theorem uses_exact (declare : Bool) (S : List String) (t : SType) (p : String) :
-    p ∈ tyParams declare S t ↔ p ∈ S ∧ p ∈ occ declare t := ty_exact declare S p t
+    p ∈ tyParams declare S t ↔ p ∈ S ∧ ∃ i ∈ occ declare t, unraw p = unraw i :=
+  ty_exact declare S p t
+
+/-- a queried name written literally at a use position is reported -/
+theorem uses_of_mem_occ (declare : Bool) (S : List String) (t : SType) (p : String)
+    (hs : p ∈ S) (h : p ∈ occ declare t) : p ∈ tyParams declare S t :=
+  (uses_exact declare S t p).mpr ⟨hs, p, h, rfl⟩
 
 /-- never a name outside the queried set -/
 theorem uses_subset (declare : Bool) (S : List String) (t : SType) (p : String)
@@ -311,7 +334,7 @@ theorem lifetimes_exact (declare : Bool) (L : List String) (t : SType) (p : Stri
 
 theorem bounded_exact (declared : List String) (fields : List BField) (p : String) :
     p ∈ boundedParams declared (usedInFields declared fields) ↔
-      p ∈ declared ∧ ∃ f ∈ fields, f.skip = false ∧ p ∈ occ false f.ty := by
+      p ∈ declared ∧ ∃ f ∈ fields, f.skip = false ∧ ∃ i ∈ occ false f.ty, unraw p = unraw i := by
   simp only [boundedParams, usedInFields, List.mem_filter, List.contains_iff_mem]
   rw [collection_is_union]
   constructor
@@ -342,5 +365,10 @@ example : tyParams false ["T", "U"] tyAssoc = [] := by decide
 example : tyParams true ["T", "U"] tyAssoc = ["U"] := by decide
 example : tyParams false ["T"] (.path none (.mk true [.mk "T" .none])) = [] := by decide
 example : tyLts false ["'a", "'b"] (.ref (some "'a") tyVecT) = ["'a"] := by decide
+/-- raw and plain spellings denote the same parameter: `Vec<r#T>` queried for `T`, `Vec<T>` for `r#T` -/
+def tyVecRawT : SType := .path none (.mk false [.mk "Vec" (.angle [.ty (.path none (.mk false [.mk "r#T" .none]))])])
+example : tyParams false ["T", "U"] tyVecRawT = ["T"] := by decide
+example : tyParams false ["r#T", "U"] tyVecT = ["r#T"] := by decide
+example : boundedParams ["T", "U"] (usedInFields ["T", "U"] [⟨tyVecRawT, false⟩, ⟨tyVecT, true⟩]) = ["T"] := by decide
 
 end C19
